@@ -55,7 +55,7 @@ def run_shard(shard, ctx):
                      "payload-is-tar-gz", "tar-with-leftover-blocks", "vmtar-with-leftover-blocks",
                      "pax-x-path", "pax-x-size", "pax-X-path", "pax-X-size", "pax-g-comment", "pax-x-before-ustar",
                      "pax-x-before-dir-after-file", "links-visor", "links-ustar", "links-mixed", "regular-typeflags",
-                     "relinked-visor", "relinked-ustar"):
+                     "relinked-visor", "relinked-ustar", "open-by-name-after-fileobj", "pax-size-override-ustar", "pax-size-override-between-visor"):
             run_case({"special": what}, ctx)
         return
     if shard.get("high"):
@@ -144,6 +144,78 @@ def _case_special(case, ctx):
                     byname = (t.extractfile("d/same").read(), t.extractfile(t.getmember("d/same")).read())
                     if byname != (members[3][2], members[3][2]):
                         got = got + [("by-name(d/same)", False, byname[0][:10])]
+            elif what == "open-by-name-after-fileobj":
+                # different ways of naming the archive in one process, with different keyword arguments each time: every open
+                # stands for itself
+                import os
+
+                from mc.scratch import scratch_dir
+
+                ma = [("a/", "vdir", b""), ("a/one", "visor", b"1" * 600)]
+                mb = [("b/", "vdir", b""), ("b/two", "visor", b"2" * 700), ("b/u", "ustar", b"U" * 513)]
+                ia, _ = B.build(ma, 512)
+                ib, _ = B.build(mb, 4096)
+                ea = [(n.rstrip("/"), k == "vdir", (None if k == "vdir" else d)) for n, k, d in ma]
+                eb = [(n.rstrip("/"), k == "vdir", (None if k == "vdir" else d)) for n, k, d in mb]
+                with scratch_dir() as d:
+                    pb = os.path.join(d, "b.vtar")
+                    with open(pb, "wb") as f:
+                        f.write(ib)
+                    pgz = os.path.join(d, "b.vgz")
+                    with open(pgz, "wb") as f:
+                        f.write(gzip.compress(ib, mtime=0))
+                    got, exp = [], []
+                    t1 = vmtar.open(fileobj=io.BytesIO(ia), ignore_zeros=True, encoding="latin-1")
+                    got.append(_listing(t1)); exp.append(ea)
+                    t2 = vmtar.open(pb)
+                    got.append(_listing(t2)); exp.append(eb)
+                    t2.close()
+                    t3 = vmtar.open(name=pgz, mode="r:gz")
+                    got.append(_listing(t3)); exp.append(eb)
+                    t3.close()
+                    t4 = vmtar.open(fileobj=io.BytesIO(ia))
+                    got.append(_listing(t4)); exp.append(ea)
+                    t5 = vmtar.VisorTarFile(pb)
+                    got.append(_listing(t5)); exp.append(eb)
+                    t5.close()
+                    with open(pb, "rb") as fh:
+                        t6 = vmtar.open(fileobj=fh, mode="r:")
+                        got.append(_listing(t6)); exp.append(eb)
+            elif what.startswith("pax-size-override"):
+                # the POSIX way to store big members: the header's size field is 0 (or stale), the real size is in a pax record
+                def rec(k, v):
+                    body = f" {k}={v}\n".encode()
+                    n = len(body) + 1
+                    while len(str(n)) + len(body) != n:
+                        n = len(str(n)) + len(body)
+                    return str(n).encode() + body
+
+                body = b"B" * 1500
+                payload = rec("size", str(len(body)))
+                heads = bytearray()
+                data0 = 16384
+                between = what.endswith("visor")
+                exp = []
+                if between:
+                    heads += B.hdr("v/first", 600, offset_data=data0)
+                    exp.append(("v/first", False, b"F" * 600))
+                heads += B.hdr("././@PaxHeader", len(payload), typ=b"x", visor=False) + B.pad512(payload)
+                heads += B.hdr("big/member", 0, visor=False) + B.pad512(body)   # size field 0, the pax record says 1500
+                exp.append(("big/member", False, body))
+                heads += B.hdr("after/ustar", 513, visor=False) + B.pad512(b"A" * 513)
+                exp.append(("after/ustar", False, b"A" * 513))
+                if between:
+                    heads += B.hdr("v/last", 5, offset_data=data0 + 4096)
+                    exp.append(("v/last", False, b"LAST!"))
+                heads += b"\0" * 1024
+                img = bytes(heads)
+                if between:
+                    img = img.ljust(data0, b"\0") + (b"F" * 600).ljust(4096, b"\xEE") + b"LAST!"
+                ref = [(m.name, m.isdir(), (tarfile.open(fileobj=io.BytesIO(img)).extractfile(m).read() if m.isreg() else None))
+                       for m in tarfile.open(fileobj=io.BytesIO(img)).getmembers()] if not between else None
+                if ref is not None and ref != exp:
+                    raise AssertionError(f"harness: the standard reader disagrees with the expectation: {str(ref)[:200]}")
+                got = _listing(vmtar.open(fileobj=io.BytesIO(img)))
             elif what == "regular-typeflags":
                 # every typeflag that denotes a regular file ('0', NUL, '7' contiguous) as visor members with out-of-line data,
                 # followed by further members
